@@ -24,8 +24,8 @@ CONFIG = {
              'nodes over the 13 collision atoms (exhaustive layer, split over shards) + near-miss mutants of '
              'random deeper values; evaluations = pairs judged; distinct_nontrivial = distinct pairs that are '
              'JSON-equal but not identical, or near-misses (Python-== / one-edit apart) that are not JSON-equal'),
-    'exhaustive_layer': 'subbuild argument pairs: all ordered pairs of values with <=2 nodes over the 13 atoms (as positional argument)',
-    'gates': ['pairs_sb', 'pairs_bf', 'expected_hit', 'expected_miss', 'expected_dup', 'spelling_pairs',
+    'exhaustive_layer': 'subbuild: (1) all ordered pairs of values with <=2 nodes over the 13 atoms as one positional argument; (2) all ordered pairs of (args, kwargs) shapes with <=2 positionals over {1,"a","0"} and keyword sets over keys {"a","0"} (args/kwargs boundary)',
+    'gates': ['cross_pairs_done', 'pairs_sb', 'pairs_bf', 'expected_hit', 'expected_miss', 'expected_dup', 'spelling_pairs',
               'received_checked'],
 }
 
@@ -247,6 +247,32 @@ def run_shard(sh):
     sh.exhaustive = complete and done == len(mine)
     sh.count('exhaustive_pairs_done', done)
     sh.count('exhaustive_pairs_total', len(mine))
+    # ---- second exhaustive layer: the boundary between positional and keyword arguments.
+    #      All ordered pairs of (args, kwargs) shapes with <= 2 positionals over {1, 'a', '0'} and
+    #      keyword sets over the keys {'a', '0'}: the string atoms coincide with the key names, so
+    #      an encoding that flattens args and kwargs into one sequence collides here.
+    small = [1, 'a', '0']
+    arg_shapes = [[]] + [[x] for x in small] + [[x, y] for x in small for y in small]
+    kw_shapes = [{}] + [{k: v} for k in ('a', '0') for v in small] + \
+        [{'a': v, '0': u} for v in small for u in small]
+    shapes = [(a, k) for a in arg_shapes for k in kw_shapes]
+    cross = [(x, y) for x in shapes for y in shapes]
+    mine2 = cross[sh.idx::sh.n]
+    done2 = 0
+    batch = []
+    for (a1, k1), (a2, k2) in mine2:
+        if sh.time_left() < (5 if sh.tier == 'quick' else 40):
+            break
+        batch.append(Case('sb', a1, k1, a2, k2, tag='near'))
+        done2 += 1
+        if len(batch) == BATCH:
+            run_batch(sh, batch, rng)
+            batch = []
+    if batch:
+        run_batch(sh, batch, rng)
+    sh.count('cross_pairs_done', done2)
+    sh.count('cross_pairs_total', len(mine2))
+    sh.exhaustive = sh.exhaustive and done2 == len(mine2)
     # ---- random deeper values, near misses, kwargs, build_file with spellings
     while sh.time_left() > 0:
         batch = []
@@ -283,6 +309,28 @@ def run_shard(sh):
                     a2 = a1 + [None]
             else:
                 a2, k2 = a1, k1
+            if rng.random() < 0.25:
+                # structural near misses: move content across the args/kwargs boundary or a nesting level
+                tag = 'near'
+                how = rng.randrange(5)
+                a2, k2 = list(a1), dict(k1)
+                if how == 0 and k2:
+                    kk = sorted(k2)[0]
+                    a2 = a2 + [kk, k2.pop(kk)]
+                elif how == 1 and len(a2) >= 2 and isinstance(a2[-2], str):
+                    v = a2.pop()
+                    kk = a2.pop()
+                    k2[kk] = v
+                elif how == 2:
+                    a2 = [a2]
+                elif how == 3 and a2 and isinstance(a2[0], (list, tuple)):
+                    a2 = list(a2[0]) + a2[1:]
+                else:
+                    kk = rng.choice(['k', 'j', 'scale'])
+                    v = rand_value(rng, 1)
+                    a1, k1 = list(a1) + [kk, v], dict(k1)
+                    k1.pop(kk, None)
+                    a2, k2 = list(a1[:-2]), dict(k1, **{kk: v})
             c = Case(kind, a1, k1, a2, k2, tag=tag)
             if kind == 'bf':
                 c.sp1 = rng.choice(SPELLINGS)
